@@ -1001,6 +1001,27 @@ func (env *SpecEnv) evalCall(x *SExpr) (Val, error) {
 				ref = a.sBase()
 			}
 			return Val{T: tBool, S: app(">", ref, env.old.alloc)}, nil
+		case "sincelastsend":
+			// sincelastsend(x): the object (or the backing array of the slice) x was allocated after the
+			// previous channel send of this function (after its entry, if there was none): a buffer handed to
+			// a channel is not handed to it again
+			a, err := env.eval(args[0])
+			if err != nil {
+				return Val{}, err
+			}
+			ref := a.S
+			if kindOf(a.T) == kSlice {
+				ref = a.sBase()
+			}
+			e.keySort["X:lastsendalloc"] = sRef
+			mark := e.heapGet(env.st, "X:lastsendalloc", sRef)
+			// the mark is an earlier allocation bound, never below the entry's (at a loop head the engine also
+			// assumes that it is not above the bound reached there)
+			e.assume(app(">=", mark, "alloc0"))
+			if e.entry != nil {
+				e.assume(mkEq(e.heapGet(e.entry, "X:lastsendalloc", sRef), "alloc0")) // no send yet at entry
+			}
+			return Val{T: tBool, S: app(">", ref, mark)}, nil
 		case "implements":
 			// implements(x, I): the dynamic type of the interface value x implements interface I (the
 			// predicate a comma-ok assertion x.(I) tests)
